@@ -502,14 +502,15 @@ Definition s_merge (G : nxg) (g n g2 : N) (pol : option (list (N * N))) : nxg * 
       | Some v =>
           match nx_node G u, nx_node G v with
           | Some mine, Some other =>
+              (* the merged properties are computed first (fix e66ee73): a policy that needs a property
+                 the other node lacks raises KeyError before anything is modified *)
               let G1 := strip_contraction u (contract G u v) in
-              let cleared := nx_set_node G1 u [] in
               match pol with
               | None => (nx_set_node G1 u mine, Ok RUnit)
               | Some p =>
                   match merge_props p mine other mine with
                   | Some np => (nx_set_node G1 u np, Ok RUnit)
-                  | None => (cleared, Err EKey)          (* raised after clear(): props lost *)
+                  | None => (G, Err EKey)
                   end
               end
           | _, _ => (G, Err EOther)
@@ -561,7 +562,7 @@ Definition s_matching (G : nxg) (g g2 : N) : res :=
   | Ok (RVals mine) =>
       if negb (forallb hashable mine) then Err EType else     (* set(list) *)
       match s_extract G g2 with
-      | None => Err EAssert                           (* assert isinstance(None, nx.Graph) *)
+      | None => matching_result mine []               (* no nodes: nothing matches (fix 6383c41) *)
       | Some ig => matching_result mine (inodes ig)
       end
   | Ok _ => Err EOther
@@ -758,3 +759,51 @@ Fixpoint first_bad_shared (s : store) (last : nxg) (i : N) (l : list sstep_obs) 
       if res_eqb r' r && nxg_eqb (sg s') cur then first_bad_shared s' cur (N.succ i) rest
       else Some (i, r', sg s')
   end.
+
+(* ------------------------------------------------------------------------------------------ *)
+(* C04's correspondence: only what isolation is about.  Every step starts from the              *)
+(* implementation's own previous store (state injection), so that a difference INSIDE the       *)
+(* addressed graph (C05's business, checked by C05's lock-step stream on the same model) neither *)
+(* alarms here nor cascades.  Compared: for the storage operations (import, direct import,     *)
+(* delete graph, clone) result, whole store and start_id; for every other operation what every  *)
+(* graph id the operation is not addressed to sees (nodes, internal ids, properties, links);    *)
+(* and, on the implementation's own transition, the allocator discipline (new internal ids are  *)
+(* at or above the previous start_id, all ids below the new one, no id twice).                  *)
+(* ------------------------------------------------------------------------------------------ *)
+Definition view_eqb (a b : list node * list edge) : bool :=
+  list_eqb node_eqb (fst a) (fst b) && perm_eqb edge_eqb (snd a) (snd b).
+
+Fixpoint gids_of_nodes (l : list node) : list N :=
+  match l with
+  | [] => []
+  | n :: r => match aget k_graphid (snd n) with Some (PV g) => g :: gids_of_nodes r | _ => gids_of_nodes r end
+  end.
+
+Definition storage_op (o : op) : bool :=
+  match o with OImport _ _ | OImportDirect _ _ | ODelGraph _ | OClone _ _ => true | _ => false end.
+Definition writes_gid (o : op) (g : N) : bool :=
+  N.eqb (target o) g || match o with OMerge _ _ g2 _ => N.eqb g2 g | _ => false end.
+
+Fixpoint nodupN_b (l : list N) : bool :=
+  match l with [] => true | x :: r => negb (memN x r) && nodupN_b r end.
+
+Definition alloc_ok (prev : nxg) (pn : N) (cur : nxg) (cn : N) : bool :=
+  let pids := map fst (gn prev) in
+  let cids := map fst (gn cur) in
+  forallb (fun i => memN i pids || N.leb pn i) cids && forallb (fun i => N.ltb i cn) cids && nodupN_b cids.
+
+Definition iso_obs := (op * res * option nxg * N)%type.
+
+Fixpoint check_iso_shared_from (prev : nxg) (pn : N) (l : list iso_obs) : bool :=
+  match l with
+  | [] => true
+  | (o, r, snap, cn) :: rest =>
+      let cur := match snap with Some x => x | None => prev end in
+      let '(s', r') := sstep (mkS prev pn) o in
+      alloc_ok prev pn cur cn &&
+      (if storage_op o then res_eqb r' r && nxg_eqb (sg s') cur && N.eqb (snext s') cn
+       else forallb (fun g => writes_gid o g || view_eqb (view (sg s') g) (view cur g))
+                    (gids_of_nodes (gn prev) ++ gids_of_nodes (gn cur) ++ gids_of_nodes (gn (sg s')))) &&
+      check_iso_shared_from cur cn rest
+  end.
+Definition check_iso_shared (l : list iso_obs) : bool := check_iso_shared_from empty_nxg 1 l.
